@@ -120,9 +120,9 @@ theorem setOutputsM_build (c : Config) (outs : List String) :
     unfold enableSensM
     cases hs : c.sens <;> simp [buildM, hs]
 
-theorem setAdminIntended_build (c : Config) (a : Admin) :
-    setAdminIntended b (buildM b c) a = (buildM b (cfgAdmin b c a).1, (cfgAdmin b c a).2) := by
-  unfold setAdminIntended cfgAdmin
+theorem setAdminM_build (c : Config) (a : Admin) :
+    setAdminM b (buildM b c) a = (buildM b (cfgAdmin b c a).1, (cfgAdmin b c a).2) := by
+  unfold setAdminM cfgAdmin
   cases h : validAdmin b a with
   | some e => simp [h]
   | none =>
@@ -307,13 +307,13 @@ theorem build_some (c : Config) (r : RedCfg) (h : c.red = some r) :
   simp [build, h]
 
 theorem step_build_plain (c : Config) (op : Op) (h : Good b c) (hr : c.red = none) :
-    step b false (build b c) op = (build b (applyCfg b c op).1, (applyCfg b c op).2) := by
+    step b (build b c) op = (build b (applyCfg b c op).1, (applyCfg b c op).2) := by
   rw [build_none b c hr]
   cases op with
   | setAdmin a =>
     simp only [step, stepPlain, applyCfg, hr]
     by_cases hp : b.pkpd
-    · simp only [hp, setAdminIntended_build, Bool.not_true, Bool.false_eq_true, if_false]
+    · simp only [hp, setAdminM_build, Bool.not_true, Bool.false_eq_true, if_false]
       rw [build_none b _ (by rw [cfgAdmin_red, hr])]
     · simp [hp, build_none b c hr]
   | setRegimen r =>
@@ -412,7 +412,7 @@ theorem build_some_of (c c' : Config) (r : RedCfg) (m : MState) (hm : m = buildM
   rw [build_some b c' r hr, buildR_congr b c c' r ha hp]
 
 theorem step_build_wrapped (c : Config) (op : Op) (h : Good b c) (r : RedCfg) (hr : c.red = some r) :
-    step b false (build b c) op = (build b (applyCfg b c op).1, (applyCfg b c op).2) := by
+    step b (build b c) op = (build b (applyCfg b c op).1, (applyCfg b c op).2) := by
   rw [build_some b c r hr]
   cases op with
   | setAdmin a => simp only [step, applyCfg, hr, build_some b c r hr]
@@ -487,7 +487,7 @@ theorem step_build_wrapped (c : Config) (op : Op) (h : Good b c) (r : RedCfg) (h
 /-- **refinement**: a call on the object with configuration `c` yields the object with configuration
 `applyCfg c op` and raises exactly when the configuration machine does -/
 theorem step_build (c : Config) (op : Op) (h : Good b c) :
-    step b false (build b c) op = (build b (applyCfg b c op).1, (applyCfg b c op).2) := by
+    step b (build b c) op = (build b (applyCfg b c op).1, (applyCfg b c op).2) := by
   cases hr : c.red with
   | none => exact step_build_plain b c op h hr
   | some r => exact step_build_wrapped b c op h r hr
